@@ -74,6 +74,7 @@ pub fn gen_loc(rng: &mut Rng) -> LocSpec {
     LocSpec {
         default_locale: (*rng.pick(&["en_US", "en", "de_DE", "fr_FR", "zz"])).to_string(),
         messages,
+        timeout_lat_ns: 0,
     }
 }
 
